@@ -61,6 +61,12 @@ fn scheme_of(cs: &CompilerState) -> &'static str {
         "3E"
     } else if cs.context.get_macro("__3E_PLUS__").is_some() {
         "3EP"
+    } else if cs.context.get_macro("__SUPERGAME_EXFIX__").is_some() {
+        "SuperGame/EXFIX"
+    } else if cs.context.get_macro("__SUPERGAME256_EXFIX__").is_some() {
+        "SuperGame256/EXFIX"
+    } else if cs.context.get_macro("__SUPERGAME__").is_some() {
+        "SuperGame"
     } else if cs.context.get_macro("__DPC__").is_some() {
         "DPC"
     } else if cs.context.get_macro("__DPCPLUS__").is_some() {
